@@ -472,7 +472,8 @@ def sibling_defaults(run, rule, mi):
 
 
 # ---------------------------------------------------------------------------------------------------------------- sibling guards
-def _guard_atoms(test, local_names, int_names=()):
+def _guard_atoms(test, local_names, int_names=(), param_names=None):
+    param_names = local_names if param_names is None else param_names
     """(structure, atoms, skeleton atoms): the test as a boolean function over canonical atoms.  Comparisons are reduced to == and < (a != b is
     not (a == b), a >= b is not (a < b), a > b is b < a, a <= b is not (b < a)); local variable names are abstracted to '_', attribute / function /
     class names and constants are kept.  The skeleton abstracts constants and operators as well and sorts call arguments."""
@@ -482,7 +483,8 @@ def _guard_atoms(test, local_names, int_names=()):
         class A(ast.NodeTransformer):
             def visit_Name(self, n):
                 if n.id in local_names:
-                    return ast.copy_location(ast.Name(id='_', ctx=ast.Load()), n)
+                    # an argument of the function, or a value computed in it: guards on the two are not siblings of each other
+                    return ast.copy_location(ast.Name(id='_' if n.id in param_names else '_L', ctx=ast.Load()), n)
                 return n
 
             def visit_Attribute(self, n):
@@ -494,7 +496,7 @@ def _guard_atoms(test, local_names, int_names=()):
             def visit_Subscript(self, n):
                 # an entry of a local mapping picked by a literal key (data['ne']) is 'a local value' like a plain local
                 if isinstance(n.value, ast.Name) and n.value.id in local_names and isinstance(n.slice, ast.Constant) and isinstance(n.slice.value, str):
-                    return ast.copy_location(ast.Name(id='_', ctx=ast.Load()), n)
+                    return ast.copy_location(ast.Name(id='_' if n.value.id in param_names else '_L', ctx=ast.Load()), n)
                 self.generic_visit(n)
                 return n
 
@@ -590,7 +592,8 @@ def _guard_atoms(test, local_names, int_names=()):
             def visit_Compare(self, n):
                 self.generic_visit(n)
                 sides = sorted([norm(n.left)] + [norm(c) for c in n.comparators])
-                return ast.Name(id='CMP(%s)' % ','.join(sides), ctx=ast.Load())
+                kind = 'IN' if isinstance(n.ops[0], (ast.In, ast.NotIn)) else ('IS' if isinstance(n.ops[0], (ast.Is, ast.IsNot)) else 'CMP')
+                return ast.Name(id='%s(%s)' % (kind, ','.join(sides)), ctx=ast.Load())
 
             def visit_BinOp(self, n):
                 self.generic_visit(n)
@@ -605,6 +608,7 @@ GUARD_EXCEPTIONS = {
     ('cherab.core.math.interpolators.interpolators3d', '_Interpolate3DBase.__init__', 'f.ndim != 3'): 'the data table of a 3D interpolator is three-dimensional (the axes are 1D)',
     ('cherab.core.math.transform.periodic', 'PeriodicTransform1D.__init__', 'period <= 0'): 'a 1D periodic transform needs a positive period; the 2D / 3D ones accept 0 for a non-periodic axis',
     ('cherab.core.math.transform.periodic', 'VectorPeriodicTransform1D.__init__', 'period <= 0'): 'as PeriodicTransform1D',
+    ('cherab.core.math.integrators.integrators1d', 'GaussianQuadrature.__init__', 'min_order > max_order'): 'equal orders are a legal (fixed-order) quadrature; ranges of wavelengths / clamps need min < max',
     ('cherab.core.model.lineshape.zeeman', 'ParametrisedZeemanTriplet.__init__', 'beta < 0'): 'beta = 0 (no quadratic Zeeman term) is a legal parameter; only negative values are rejected',
 }
 
@@ -622,6 +626,7 @@ def sibling_guards(run, rule, modules, min_major=4):
         for fname, f in fns:
             local_names = ({a.arg for a in f.args.posonlyargs + f.args.args + f.args.kwonlyargs} |
                            {t.id for st in ast.walk(f) for t in ast.walk(st) if isinstance(t, ast.Name) and isinstance(t.ctx, ast.Store)}) - {'self', 'cls'}
+            param_names = {a.arg for a in f.args.posonlyargs + f.args.args + f.args.kwonlyargs} - {'self', 'cls'}
             int_names = set()
             for st in ast.walk(f):
                 if isinstance(st, ast.Assign) and len(st.targets) == 1 and isinstance(st.targets[0], ast.Name) and isinstance(st.value, ast.Call) \
@@ -652,8 +657,8 @@ def sibling_guards(run, rule, modules, min_major=4):
                 if body_kind is None:
                     continue
                 try:
-                    r = _guard_atoms(test, local_names)
-                    ri = _guard_atoms(test, local_names, int_names) if int_names else r
+                    r = _guard_atoms(test, local_names, (), param_names)
+                    ri = _guard_atoms(test, local_names, int_names, param_names) if int_names else r
                 except Exception:
                     r = None
                 if r is None or ri is None:
